@@ -541,3 +541,45 @@ def animated_draw_frame(m, meta):
                         problems.append({"frame before the animated draw": start, "repeat": repeat, "cached": cached,
                                          "draw": "completed" if fault is None else f"{fault[1].__name__} at write {fault[0]}", "frame afterwards": image.tell()})
     return {"reproduced": bool(problems), "input": "animated draw() from frames 0 / 1 / 3, completed, interrupted and failing", "observed": problems[:3]}
+
+
+def warn_escalated(m, meta):
+    """An iterm2 native-animation render of a file-sourced animated image above the size limit, with the size warning escalated to an
+    error by the caller's warning filter: when the error reaches the caller, the image file the library opened for the render is
+    already closed (every image the library opens is kept referenced here, so that reference counting cannot close it)."""
+    import warnings
+    import tests  # noqa: F401
+    import PIL.Image
+    from term_image.exceptions import TermImageUserWarning
+    from term_image.image import ITerm2Image
+    IMG = (os.environ.get("VERIF_REPO", "/repo") if os.path.isdir(os.environ.get("VERIF_REPO", "/repo") + "/tests") else "/repo") + "/tests/images"
+    ITerm2Image._supported = True
+    ITerm2Image._TERM = "wezterm"
+    ITerm2Image.read_from_file = False
+    opened, orig = [], PIL.Image.open
+
+    def tracking(*a, **k):
+        img = orig(*a, **k)
+        opened.append(img)
+        return img
+    PIL.Image.open = tracking
+    old_max = ITerm2Image.native_anim_max_bytes
+    problems = []
+    try:
+        for name in ("lion.gif", "anim.webp"):
+            image = ITerm2Image.from_file(os.path.join(IMG, name))
+            ITerm2Image.native_anim_max_bytes = 1
+            del opened[:]
+            with warnings.catch_warnings():
+                warnings.simplefilter("error", TermImageUserWarning)
+                try:
+                    format(image, "+A")
+                    problems.append({"image": name, "observed": "no error although the warning was escalated"})
+                except TermImageUserWarning:
+                    still = [im for im in opened if getattr(im, "fp", None) is not None]
+                    if still:
+                        problems.append({"image": name, "observed": f"{len(still)} image file(s) opened by the render still open when the escalated warning reaches the caller"})
+    finally:
+        PIL.Image.open = orig
+        ITerm2Image.native_anim_max_bytes = old_max
+    return {"reproduced": bool(problems), "input": problems}
